@@ -110,3 +110,111 @@ Theorem C04_source_page_name_call O sb sa s1 e1 s2 e2 :
   (truthy O v = true <-> e1 <> s2 /\ s2 <> ""%string).
 Proof. exact (PN.page_name_call_spec O sb sa s1 e1 s2 e2). Qed.
 Print Assumptions C04_source_page_name_call.
+
+(* ---- page sides and blank pages.  The slice of remake_page (weasyprint/layout/page.py) that decides the side a
+   forced break asks for and whether a blank page is inserted, the two `if page_type.blank:` statements of make_page
+   and the end of remake_page (the entry of the next page), REGENERATED from the source on every run
+   (gen/GenPageSide.v).  PS.entry_env s d pg ra r fn .. is what the slice reads: next_page = {'break': s, 'page': pg},
+   right_page = r, resume_at = ra, context.reported_footnotes = fn, root_box.style['direction'] = d; PS.np_of reads a
+   string as a break value of the model (anything that is not one of the ten CSS values, e.g. 'any', is no break);
+   want_side / is_blank are those of the page loop Frag2.paginate_loop *)
+Require WV.gen.GenPageSide WV.proofs.C04_gen_page_side.
+Module PS := WV.proofs.C04_gen_page_side.
+
+(* for EVERY break value, direction and parity the slice computes want_side and is_blank of the model; the only other
+   blank page is the one that holds reported footnotes after the end of the content *)
+Theorem C04_source_page_side_is_model O nrest crest rrest srest s d pg ra r fn :
+  (forall m, ra <> VErr m) ->
+  run O GenPageSide.page_side_body (PS.entry_env s d pg ra r fn nrest crest rrest srest)
+    (fun rho ret =>
+       let blank := is_blank (PS.ltr_of d) (PS.np_of s) r || (PS.nonempty fn && PS.is_none ra) in
+       ret = None /\ lookup "next_page_side"%string rho = PS.side_val (want_side (PS.ltr_of d) (PS.np_of s)) /\
+       lookup "blank"%string rho = VBool blank /\
+       lookup "name"%string rho = (if blank then VStr ""%string else pg) /\
+       lookup "side"%string rho = VStr (if r then "right" else "left")%string)
+    (fun _ => False).
+Proof. exact (PS.gen_page_side_is_model O nrest crest rrest srest s d pg ra r fn). Qed.
+Print Assumptions C04_source_page_side_is_model.
+
+(* after a forced break naming a side: this page holds content and has that side, or it is blank and the page made
+   from what a blank page leaves behind (same resume_at and next_page, parity flipped: next theorem) holds content
+   and has that side - at most one blank page in between *)
+Theorem C04_source_forced_side_honoured O nrest crest rrest srest s d pg ra r w :
+  (forall m, ra <> VErr m) -> want_side (PS.ltr_of d) (PS.np_of s) = Some w ->
+  run O GenPageSide.page_side_body (PS.entry_env s d pg ra r [] nrest crest rrest srest)
+    (fun rho _ =>
+       (lookup "blank"%string rho = VBool false /\ lookup "side"%string rho = PS.side_val (Some w) /\
+        lookup "name"%string rho = pg) \/
+       (lookup "blank"%string rho = VBool true /\
+        run O GenPageSide.page_side_body (PS.entry_env s d pg ra (negb r) [] nrest crest rrest srest)
+          (fun rho' _ => lookup "blank"%string rho' = VBool false /\ lookup "side"%string rho' = PS.side_val (Some w) /\
+                         lookup "name"%string rho' = pg)
+          (fun _ => False)))
+    (fun _ => False).
+Proof. exact (PS.source_forced_side_honoured O nrest crest rrest srest s d pg ra r w). Qed.
+Print Assumptions C04_source_forced_side_honoured.
+
+(* a blank page hands on the resume_at it was given and the next_page of its own entry; the entry appended for the
+   next page has these two values and the other parity (first pass: the entry does not exist yet) *)
+Theorem C04_source_blank_page_hands_on O (HO : ops_ok O) trest root cw pm i page ra0 npv r ps st erest ra' np' :
+  ocall O ".copy_with_children"%string [root; VList []] = cw -> (forall m, cw <> VErr m) ->
+  (forall m, root <> VErr m) -> (forall m, ra0 <> VErr m) ->
+  nth i pm (VErr "IndexError"%string) = VList (ra0 :: npv :: VBool r :: ps :: st :: erest) ->
+  List.length pm = S i ->
+  run O GenPageSide.blank_enter_body
+    [("page_type"%string, VObj (("blank"%string, VBool true) :: trest)); ("resume_at"%string, ra0);
+     ("root_box"%string, root)]
+    (fun rho ret => ret = None /\ lookup "previous_resume_at"%string rho = ra0 /\ lookup "root_box"%string rho = cw)
+    (fun _ => False) /\
+  run O GenPageSide.blank_return_body
+    [("page_type"%string, VObj (("blank"%string, VBool true) :: trest)); ("previous_resume_at"%string, ra0);
+     ("page_maker"%string, VList pm); ("page_number"%string, PS.vnat (S i)); ("page"%string, page);
+     ("resume_at"%string, ra'); ("next_page"%string, np')]
+    (fun _ ret => ret = Some (VList [page; ra0; npv])) (fun _ => False) /\
+  run O GenPageSide.page_next_body
+    [("index"%string, PS.vnat i); ("page_maker"%string, VList pm); ("right_page"%string, VBool r);
+     ("resume_at"%string, ra0); ("next_page"%string, npv); ("page_state"%string, ps); ("page"%string, page)]
+    (fun rho ret => ret = Some (VList [page; ra0]) /\
+       lookup "page_maker"%string rho = VList (pm ++ [VList [ra0; npv; VBool (negb r); ps; PS.fresh_state ra0]]))
+    (fun _ => False).
+Proof. exact (PS.blank_page_hands_on O HO trest root cw pm i page ra0 npv r ps st erest ra' np'). Qed.
+Print Assumptions C04_source_blank_page_hands_on.
+
+(* a page with content returns what the layout of the root box gave, and the next entry flips the parity too *)
+Theorem C04_source_content_page_returns O trest pra pm pn page ra np :
+  run O GenPageSide.blank_return_body
+    [("page_type"%string, VObj (("blank"%string, VBool false) :: trest)); ("previous_resume_at"%string, pra);
+     ("page_maker"%string, pm); ("page_number"%string, pn); ("page"%string, page); ("resume_at"%string, ra);
+     ("next_page"%string, np)]
+    (fun _ ret => ret = Some (VList [page; ra; np])) (fun _ => False).
+Proof. exact (PS.gen_blank_return_content O trest pra pm pn page ra np). Qed.
+Print Assumptions C04_source_content_page_returns.
+Theorem C04_source_next_entry_flips_parity O (HO : ops_ok O) i pm (r : bool) ra np ps page :
+  (List.length pm <= S i)%nat -> (forall m, ra <> VErr m) ->
+  run O GenPageSide.page_next_body
+    [("index"%string, PS.vnat i); ("page_maker"%string, VList pm); ("right_page"%string, VBool r);
+     ("resume_at"%string, ra); ("next_page"%string, np); ("page_state"%string, ps); ("page"%string, page)]
+    (fun rho ret => ret = Some (VList [page; ra]) /\
+       lookup "page_maker"%string rho = VList (pm ++ [VList [ra; np; VBool (negb r); ps; PS.fresh_state ra]]))
+    (fun _ => False).
+Proof. exact (PS.gen_page_next_new O HO i pm r ra np ps page). Qed.
+Print Assumptions C04_source_next_entry_flips_parity.
+
+(* a blank page is inserted only for a value that names a side, when the parity is the other one *)
+Theorem C04_source_blank_only_for_side O nrest crest rrest srest s d pg ra r fn :
+  (forall m, ra <> VErr m) -> fn = [] \/ ra <> VNone ->
+  run O GenPageSide.page_side_body (PS.entry_env s d pg ra r fn nrest crest rrest srest)
+    (fun rho _ => lookup "blank"%string rho = VBool true ->
+                  exists w, want_side (PS.ltr_of d) (PS.np_of s) = Some w /\ w <> r /\
+                            (s = "left" \/ s = "right" \/ s = "recto" \/ s = "verso")%string)
+    (fun _ => False).
+Proof. exact (PS.source_blank_only_for_side O nrest crest rrest srest s d pg ra r fn). Qed.
+Print Assumptions C04_source_blank_only_for_side.
+
+(* the model's page loop makes the same step on a blank page *)
+Theorem C04_model_blank_page_step fuel root H lh ltr i resume np right :
+  is_blank ltr np right = true ->
+  paginate_loop (S fuel) root H lh ltr i resume np right =
+  pcons (SBlank, []) (paginate_loop fuel root H lh ltr (S i) resume np (negb right)).
+Proof. exact (PS.paginate_loop_blank_step fuel root H lh ltr i resume np right). Qed.
+Print Assumptions C04_model_blank_page_step.
